@@ -7,6 +7,9 @@ RULE = ("text: generated documents (brace-, quote-, backslash- and '#'-bearing s
         "non-trivial = the skip succeeded over a container")
 TRUSTED = []
 ASSUMPTIONS = []
+# a_c09 (wave 4): the binary half compares the debug build with the release build (stream skip_debug_build); without this
+# line `check C09` never rebuilt the debug harness, so that stream ran a stale binary when the repository changed
+PROFILES = ["release", "debug"]
 
 
 def run(ctx):
